@@ -19,11 +19,13 @@ Print Assumptions C06_refused_write_recorded.
 
 (* Promptly: whatever call is waiting (RPC, confirm, get: they all poll through
    wait_rpc) raises at its VERY NEXT poll - one IDLE_WAIT after the error was
-   recorded - whatever else is scripted to arrive, for every script. *)
-Theorem C06_waiting_call_raises_at_next_poll : forall sc s c v u uc e rest,
-  s_cerrs s = e :: rest ->
+   recorded - whatever else is scripted to arrive, for every script, and whatever returned
+   messages the wait is holding back (they go back to the queue).  Errors recorded on the
+   connection are of the connection kind (transport failures, Connection.Close). *)
+Theorem C06_waiting_call_raises_at_next_poll : forall sc s c v u uc held e rest,
+  s_cerrs s = e :: rest -> e_kind e = EConn ->
   (forall l, resp_get (c_resp (cur s c v)) u = Some l -> l = []) ->
-  exists s' v', wait_rpc sc s c v u uc = (s', v', Raise e, sc) /\ s_conn s' = CLOSED /\ s_out s' = s_out s.
+  exists s' v', wait_rpc sc s c v u uc held = (s', v', Raise e, sc) /\ s_conn s' = CLOSED /\ s_out s' = s_out s.
 Proof. exact waiting_call_raises_at_next_poll. Qed.
 Print Assumptions C06_waiting_call_raises_at_next_poll.
 
